@@ -47,6 +47,8 @@ type objSummary struct {
 	Kind   string   `json:"kind"`
 	Union  string   `json:"union"`
 	Fields []string `json:"fields"`
+	// Ctor: the Go jenny prints New<Name>() (struct objects, and references whose referent is a struct object)
+	Ctor bool `json:"ctor"`
 }
 
 // identifiers the jennies derive for one builder: Go `New<Go>Builder`, method `<GoOpt>`; Python class
@@ -111,7 +113,13 @@ func objectSummary(schemas ast.Schemas) []objSummary {
 		s.Objects.Iterate(func(_ string, o ast.Object) {
 			sum := objSummary{Pkg: s.Package, GoPkg: goPkgName(s.Package), Name: o.Name,
 				Go: tools.UpperCamelCase(o.Name), Kind: string(o.Type.Kind)}
+			if o.Type.IsRef() {
+				if referred, found := schemas.LocateObjectByRef(*o.Type.Ref); found && referred.Type.IsStruct() {
+					sum.Ctor = true
+				}
+			}
 			if o.Type.IsStruct() {
+				sum.Ctor = true
 				if o.Type.HasHint(ast.HintDisjunctionOfScalars) {
 					sum.Union = "scalars"
 				}
